@@ -5,7 +5,8 @@
 //! authorisation layer is that registry, and real `ana_gotatun::noise::Tunn` clients (real Noise handshakes, real
 //! ChaCha20-Poly1305 data packets), and to the Lean model (`drv_snaptun`):
 //!
-//!   reg k i life | adv d | purge | hs a i | rhs a i src | din a i | dinx a i src | rdin a i | junk a | dout a | tick
+//!   reg k i life | adv d | purge | hs a i | rhs a i src | fhs a i | din a i | dinx a i src | rdin a i | junk a | dout a | tick
+//!   (hs = genuine handshake, rhs = replayed, fhs = forged: claimed static key of identity i, not produced by its owner)
 //!
 //! * time is virtual: the registry is driven with `base + t` and the server's authorisation layer is an adapter
 //!   around the *real* registry that substitutes `base + t` for the `Instant::now()` the server passes (the adapter
@@ -309,14 +310,22 @@ fn same(model: &str, imp: &str) -> bool {
 
 impl World {
     fn new() -> World {
+        // public keys are derived once per process (a scalar multiplication each)
+        static KEYS: std::sync::OnceLock<(x25519::PublicKey, Vec<[u8; 32]>, x25519::PublicKey)> = std::sync::OnceLock::new();
+        let (server_pub, ids, client_pub) = KEYS
+            .get_or_init(|| {
+                (
+                    x25519::PublicKey::from(&x25519::StaticSecret::from([0xA5u8; 32])),
+                    (0..4).map(|i| *x25519::PublicKey::from(&secret(i)).as_bytes()).collect(),
+                    x25519::PublicKey::from(&secret(100)),
+                )
+            })
+            .clone();
         let static_server = x25519::StaticSecret::from([0xA5u8; 32]);
-        let server_pub = x25519::PublicKey::from(&static_server);
         let rl = Arc::new(RateLimiter::new(&server_pub, u64::MAX));
         let reg = Arc::new(IdentityRegistry::new());
         let authz = Arc::new(Clocked { reg: reg.clone(), base: Instant::now(), t: AtomicU64::new(0), passed: Mutex::new(vec![]) });
         let server = SnapTunServer::new(static_server, rl, authz.clone());
-        let ids = (0..4).map(|i| *x25519::PublicKey::from(&secret(i)).as_bytes()).collect();
-        let client_pub = x25519::PublicKey::from(&secret(100));
         World {
             authz,
             reg,
@@ -809,6 +818,60 @@ fn registry_dfs(depth: usize, lean: &mut Lean, rep: &mut Report) {
     }
 }
 
+/// all histories of exactly `len` operations over `alpha`, spread over `threads` workers (each with its own model
+/// driver); returns (evaluated, canonical lines of non-trivial histories, failing histories, counters)
+fn exhaustive_parallel(alpha: &[Op], len: usize, driver: &str, threads: usize) -> (u64, Vec<String>, Vec<Vec<Op>>, BTreeMap<String, u64>) {
+    let results: Vec<_> = std::thread::scope(|sc| {
+        let hs: Vec<_> = (0..threads)
+            .map(|t| {
+                sc.spawn(move || {
+                    let mut lean = Lean::spawn(driver);
+                    let (mut n, mut nontriv, mut failing, mut counters) = (0u64, vec![], vec![], BTreeMap::<String, u64>::new());
+                    let total = alpha.len().pow(len as u32);
+                    let mut code = t;
+                    while code < total {
+                        let mut c = code;
+                        let mut h = Vec::with_capacity(len);
+                        for _ in 0..len {
+                            h.push(alpha[c % alpha.len()].clone());
+                            c /= alpha.len();
+                        }
+                        let o = run_history(&h, &mut lean);
+                        n += 1;
+                        *counters.entry("operations".into()).or_insert(0) += o.labels.len() as u64;
+                        *counters.entry("payloads forwarded".into()).or_insert(0) += o.forwarded;
+                        *counters.entry("outbound payloads accepted".into()).or_insert(0) += o.encrypted;
+                        *counters.entry("packets refused: unauthorised".into()).or_insert(0) += o.refused_unauth;
+                        *counters.entry("handshakes completed".into()).or_insert(0) += o.handshakes_ok;
+                        for (k, v) in &o.kinds {
+                            *counters.entry(k.clone()).or_insert(0) += v;
+                        }
+                        if (o.forwarded + o.encrypted) > 0 && o.refused_unauth > 0 {
+                            nontriv.push(hist_line(&h));
+                        }
+                        if (o.disagree.is_some() || !o.spec.is_empty()) && failing.len() < 10 {
+                            failing.push(h);
+                        }
+                        code += threads;
+                    }
+                    (n, nontriv, failing, counters)
+                })
+            })
+            .collect();
+        hs.into_iter().map(|h| h.join().expect("worker")).collect()
+    });
+    let (mut n, mut nontriv, mut failing, mut counters) = (0u64, vec![], vec![], BTreeMap::<String, u64>::new());
+    for (a, b, c, d) in results {
+        n += a;
+        nontriv.extend(b);
+        failing.extend(c);
+        for (k, v) in d {
+            *counters.entry(k).or_insert(0) += v;
+        }
+    }
+    (n, nontriv, failing, counters)
+}
+
 fn alphabet_small() -> Vec<Op> {
     let mut v = vec![Op::Adv(1), Op::Adv(2), Op::Purge, Op::Tick];
     for k in 0..NK {
@@ -823,6 +886,7 @@ fn alphabet_small() -> Vec<Op> {
         for i in 0..NI {
             v.push(Op::Hs { a, i });
             v.push(Op::Din { a, i });
+            v.push(Op::Fhs { a, i });
         }
     }
     v
@@ -959,13 +1023,31 @@ fn main() {
                 break;
             }
         }
+        // thorough: every history of exactly exh+1 operations, in parallel; failures are re-run (and shrunk) below
+        if args.thorough() {
+            let (n, nontriv, failing, counters) = exhaustive_parallel(&alpha, exh + 1, &args.driver, 14);
+            for l in &nontriv {
+                rep.case(l, true);
+            }
+            for _ in 0..(n - nontriv.len() as u64) {
+                rep.case("", false);
+            }
+            rep.traces += n;
+            rep.hit_n("history exhaustive (parallel, length 4)", n);
+            for (k, v) in counters {
+                rep.hit_n(&k, v);
+            }
+            for h in failing {
+                histories.push(("exhaustive".into(), h));
+            }
+        }
         // sampled histories of length exh+1 ..= 6 over the same alphabet
-        for _ in 0..args.scale(1500, 60000) {
+        for _ in 0..args.scale(3000, 100000) {
             let n = rng.range(exh as u64 + 1, 6) as usize;
             histories.push(("sampled".into(), (0..n).map(|_| rng.pick(&alpha).clone()).collect()));
         }
         // long random histories, all operation kinds
-        for _ in 0..args.scale(150, 6000) {
+        for _ in 0..args.scale(200, 8000) {
             histories.push(("random".into(), gen_random(&mut rng, 150)));
         }
     }
@@ -1007,7 +1089,7 @@ fn main() {
         }
     }
     if args.replay.is_none() {
-        registry_dfs(args.scale(3, 5), &mut lean, &mut rep);
+        registry_dfs(args.scale(4, 5), &mut lean, &mut rep);
     }
     rep.exhaustive = args.replay.is_none();
     rep.write(&args.out);
